@@ -33,6 +33,7 @@ func (c08) Cases(tier string, seed int64, kf *KnownFindings) []Case {
 	add(Case{Kind: "table"})
 	add(Case{Kind: "bulk", Seed: Mix(seed, 4243)})
 	add(Case{Kind: "mapkeys"})
+	add(Case{Kind: "sameclass"})
 	add(Case{Kind: "f32edge", Seed: Mix(seed, 4246), Count: 400})
 	if tier == "quick" {
 		add(Case{Kind: "ints", A: -70000, B: -35000})
@@ -66,6 +67,16 @@ func (c08) Cases(tier string, seed int64, kf *KnownFindings) []Case {
 		}
 	}
 	return cs
+}
+
+// two Go types that a caller's name map sends to ONE class name (same field names, other widths)
+type AltF32 struct {
+	V float32
+	W float32
+}
+type AltF64 struct {
+	V float64
+	W float64
 }
 
 // specDouble: the shortest exact form per the document; alt is a second accepted rendering ("" if none).
@@ -293,6 +304,48 @@ func (c08) Run(c Case, env *Env) Result {
 		}
 		res.NTCount = int64(n)
 		res.Sample(map[string]interface{}{"kind": "float64 values with 23-bit mantissas around the float32 subnormal / overflow boundaries", "values": n, "example": "1.5 x 2^-149 (looks like a float32, is not one)"})
+	case "sameclass":
+		// an instance with float32 fields first, then an instance with float64 fields of the same class name:
+		// each number must be written as the number it is, whatever the first instance of the class looked like
+		nm := map[string]string{"AltF32": "shared.Floats", "AltF64": "shared.Floats"}
+		for j, f := range []float64{0.1, 1e300, math.Pi, 16777217, -2.5e-7, 1.0000000001} {
+			for order := 0; order < 2; order++ {
+				res.Evals++
+				res.NT = append(res.NT, Hash64(fmt.Sprintf("sameclass|%d|%x", order, math.Float64bits(f))))
+				cc := c
+				cc.Sub = j*2 + order
+				a32, a64 := &AltF32{V: 1.5, W: 0.25}, &AltF64{V: f, W: -f}
+				msg := []interface{}{a32, a64, a32, a64}
+				if order == 1 {
+					msg = []interface{}{a64, a32, a64}
+				}
+				var b []byte
+				var err error
+				pi, _ := Guard(func() { b, err = hessian.ToBytes(msg, copyNames(nm)) })
+				feats := append(doubleFeatures(f), "two-types-one-class-name")
+				viol := func(class, detail string) {
+					env.Viol(&res, Violation{Class: class, Features: feats, Detail: fmt.Sprintf("float64 %v in the second of two Go types under one class name: %s", f, detail), Case: cc})
+				}
+				if pi != nil || err != nil {
+					viol("enc-error", fmt.Sprint(pi, err))
+					continue
+				}
+				rv, _, perr := hspec.Parse(b)
+				if perr != nil {
+					viol(parseErrClass(perr), fmt.Sprintf("(%s) %v", hexClip(b), perr))
+					continue
+				}
+				idx := 1 - order
+				if len(rv.Elems) <= idx || rv.Elems[idx].Deref().Kind != hspec.KObject || len(rv.Elems[idx].Deref().Elems) != 2 {
+					viol("wire:shape", hexClip(b))
+					continue
+				}
+				o := rv.Elems[idx].Deref()
+				if o.Elems[0].Kind != hspec.KDouble || !sameFloat(o.Elems[0].F, f) || !sameFloat(o.Elems[1].F, -f) {
+					viol("wire:value", fmt.Sprintf("(%s) the instance carries %s", hexClip(b), hspec.ShortString(o)))
+				}
+			}
+		}
 	case "mapkeys":
 		// float64 map keys, NaN included: a NaN key can only be reached by iteration
 		for j, f := range []float64{math.NaN(), math.Inf(1), math.Inf(-1), 1.5, -2, 0.1, 1e300, math.SmallestNonzeroFloat64} {
